@@ -555,6 +555,10 @@ impl Monitors {
                     all_terminal = false;
                     let id = TaskId::new(tako::JobId::new(j.id), tako::JobTaskId::new(*t));
                     let core = snap.tasks.iter().find(|x| x.id == id);
+                    if core.is_none() {
+                        // C01: a task the job layer shows as unfinished but the scheduler has forgotten can never get its outcome
+                        fails.push(("c01.outcome_once", "unfinished-task-unknown-to-core", format!("at rest task {} is {} in the job layer but the core does not know it: it will never be reported finished, failed or canceled", tid(id), s)));
+                    }
                     let waiting_deps = matches!(core.map(|x| &x.state), Some(SnapTaskState::Waiting(n)) if *n > 0);
                     if waiting_deps {
                         continue;
